@@ -41,6 +41,14 @@ def run(tier, seed, replay=None):
             p = g.basic(nfam=rng.choice([1, 1, 2]), max_members=rng.choice([2, 3, 3]))
         if 2 <= len(p.blocks()) <= 6:
             bases.append(p)
+    # directional overlaps (one block's row strictly generalises another's: generic payload vs concrete, wildcard vs binding):
+    # `is_overlapping` must see them whichever block comes first — every run, both orders
+    for mode_ in ["general", "wild"] * (2 if tier == "quick" else 20):
+        for _ in range(20):
+            p, _m = g.overlap(mode=mode_)
+            if 2 <= len(p.blocks()) <= 5:
+                bases.append(p)
+                break
     allv, owner = [], []
     for bi, b in enumerate(bases):
         for label, q in V.permutations_of(b, rng, limit):
